@@ -85,6 +85,8 @@ pub fn battery(cols: usize, rows: usize) -> Vec<String> {
         "0x",
         "?25hx",
         "$qx",
+        "p",
+        "px",
         "hx",
         "\x1b[1;1Hx",
         // soft reset keeps some state
